@@ -5,7 +5,8 @@ import common as C
 import execpipe as X
 
 PROP = "C01"
-RULE = ("seeded type-directed random programs (whole statement/expression grammar, nesting <= 4, <= 8 stanzas) on the "
+RULE = ("seeded type-directed random programs (whole statement/expression grammar, nesting <= 4, <= 8 stanzas; one profile with 15% "
+        "deliberately ill-typed sub-expressions, out-of-range captures and unknown functions, so that error paths are compared too) on the "
         "corpus trees, both modes, each run validated against the TLA+ machine; non-trivial = at least one statement "
         "executed; distinct by (text, tree, mode, globals, config)")
 
@@ -81,7 +82,7 @@ def run(tier):
     run = X.ExecRun(PROP, tier)
     d = C.workdir("c01")
     n = 150 if tier == "quick" else 2500
-    for k, (profile, cnt) in enumerate([("default", n), ("deep", n // 3), ("small", n // 3)]):
+    for k, (profile, cnt) in enumerate([("default", n), ("deep", n // 3), ("small", n // 3), ("noisy", n // 2)]):
         raw = os.path.join(d, "raw_%s.ndjson" % profile)
         C.gen_cases(cnt, C.seed() * 1000 + k, raw, profile)
         run.add_batch("c01_" + profile, raw)
